@@ -1161,6 +1161,10 @@ func (k *Kernel) checkVotingPrecommitViewShift(ctx context.Context, s *kState) e
 func (k *Kernel) saveCurrentCommittingHeader(ctx context.Context, s *kState) error {
 	proof := s.Voting.PrevCommitProof
 
+	// The voting view's proof map is cleared when that view value is later reset
+	// (it becomes NextRound after a round advance), so the stored header needs its own copy.
+	proof = proof.Clone()
+
 	// TODO: gassert: confirm the voting proof is sufficient.
 
 	ch := tmconsensus.CommittedHeader{
